@@ -126,15 +126,20 @@ class FixedView(_Concat, collections.abc.Sequence):
         return self.seq[self.start + key]
 
 
-def _just(self, width, fillbyte, left):
-    """bytes.ljust / rjust on a symbolic string: CrossHair's fallback realises the whole string outside the tracer"""
-    inner = self.inner
+def _just_items(inner, width, fillbyte, left):
+    """the items of inner.ljust(width, fillbyte) / rjust, or None when inner is already that long"""
     if len(inner) >= width:
-        return self
+        return None
     fill = fillbyte[0]
     out = [b for b in inner]
     pad = [fill] * (width - len(out))
-    return SymbolicBytes(FixedSeq(out + pad if left else pad + out))
+    return out + pad if left else pad + out
+
+
+def _just(self, width, fillbyte, left):
+    """bytes.ljust / rjust on a symbolic string: CrossHair's fallback realises the whole string outside the tracer"""
+    items = _just_items(self.inner, width, fillbyte, left)
+    return self if items is None else SymbolicBytes(FixedSeq(items))
 
 
 SymbolicBytes.ljust = lambda self, width, fillbyte=b" ": _just(self, width, fillbyte, True)
@@ -190,6 +195,13 @@ def validate(seed=0, rounds=300):
                             got = None
                         assert got == want, (data, a, b, i)
                     n += 1
+                    # ljust / rjust
+                    w = rnd.randrange(0, 10)
+                    for left in (True, False):
+                        items = _just_items(cur, w, b"\x00", left)
+                        want = cur_ref.ljust(w, b"\x00") if left else cur_ref.rjust(w, b"\x00")
+                        got = cur_ref if items is None else bytes(items)
+                        assert got == want, (data, a, b, w, left)
         finally:
             _FORCE_VIEW = False
     return n
